@@ -11,8 +11,8 @@
      C1-C3, the C2-C3 loop of the T3 branch of onRetransmissionTimeout, createForwardTSN,
      createIForwardTSN, gatherOutboundForwardTSNPackets.
    Receiver side
-     handleForwardTSN / handleIForwardTSN on top of RPQ.advance and the RQ forward operations,
-     followed by the pop loop of handlePeerLastTSNAndAcknowledgement.
+     handleForwardTSN / handleIForwardTSN (incl. getOrCreateSkippedStream, fix 5722c17) on top of RPQ.advance
+     and the RQ forward operations, followed by the pop loop of handlePeerLastTSNAndAcknowledgement.
 
    Representation
    - the in-flight queue is the list of its chunks, oldest first; payloadQueue.get computes the offset
@@ -413,15 +413,41 @@ Record pr_rcv := mkPrRcv {
   pr_r_streams : list (Z * rq);       (* a.streams: stream id -> reassembly queue, sorted by id *)
   pr_r_inter : bool;                  (* useInterleaving *)
   pr_r_usefwd : bool;
-  pr_r_useifwd : bool
+  pr_r_useifwd : bool;
+  pr_r_maxent : Z;                    (* maxReassemblyQueueEntries *)
+  pr_r_accq : Z                       (* len(a.acceptCh) *)
 }.
 
 Inductive pr_rres := PrrAbort | PrrErrorChunk | PrrStale | PrrApplied.
 
+Fixpoint pr_streams_get (sid : Z) (l : list (Z * rq)) : option rq :=
+  match l with
+  | [] => None
+  | (k, q) :: r => if k =? sid then Some q else pr_streams_get sid r
+  end.
+
 Fixpoint pr_streams_upd (sid : Z) (f : rq -> rq) (l : list (Z * rq)) : list (Z * rq) :=
   match l with
-  | [] => []                                        (* "if s, ok := a.streams[id]; ok": unknown stream, nothing *)
+  | [] => []
   | (k, q) :: r => if k =? sid then (k, f q) :: r else (k, q) :: pr_streams_upd sid f r
+  end.
+
+Fixpoint pr_streams_ins (sid : Z) (q : rq) (l : list (Z * rq)) : list (Z * rq) :=
+  match l with
+  | [] => [(sid, q)]
+  | (k, q0) :: r => if sid <? k then (sid, q) :: l else (k, q0) :: pr_streams_ins sid q r
+  end.
+
+(* getOrCreateSkippedStream (fix 5722c17) followed by the forward operation f: an existing stream is used; a
+   missing one is created as the first DATA chunk would have created it (createStream with accept: refused
+   when acceptCh is full, then the entry is dropped) *)
+Definition pr_skip_stream (maxent : Z) (sid : Z) (f : rq -> rq) (st : list (Z * rq) * Z) : list (Z * rq) * Z :=
+  let '(l, accq) := st in
+  match pr_streams_get sid l with
+  | Some _ => (pr_streams_upd sid f l, accq)
+  | None =>
+      if accq <? c_acceptChSize then (pr_streams_ins sid (f (rq_new sid maxent)) l, accq + 1)
+      else (l, accq)
   end.
 
 (* the loop of handlePeerLastTSNAndAcknowledgement: pop(false) while it succeeds *)
@@ -431,8 +457,9 @@ Fixpoint pr_pop_loop (fuel : nat) (q : rpq) : rpq :=
   | S f => let '(q', ok) := pop q false in if ok then pr_pop_loop f q' else q
   end.
 
-Definition pr_after_fwd (r : pr_rcv) (q : rpq) (streams : list (Z * rq)) : pr_rcv :=
-  mkPrRcv (pr_pop_loop (S (Z.to_nat (size q))) q) streams (pr_r_inter r) (pr_r_usefwd r) (pr_r_useifwd r).
+Definition pr_after_fwd (r : pr_rcv) (q : rpq) (st : list (Z * rq) * Z) : pr_rcv :=
+  mkPrRcv (pr_pop_loop (S (Z.to_nat (size q))) q) (fst st) (pr_r_inter r) (pr_r_usefwd r) (pr_r_useifwd r)
+          (pr_r_maxent r) (snd st).
 
 (* handleForwardTSN *)
 Definition pr_recv_fwd (r : pr_rcv) (newcum : Z) (entries : list (Z * Z)) : pr_rcv * pr_rres :=
@@ -441,8 +468,9 @@ Definition pr_recv_fwd (r : pr_rcv) (newcum : Z) (entries : list (Z * Z)) : pr_r
   else if sna32LTE newcum (cum (pr_r_pq r)) then (r, PrrStale)
   else
     let q := advance (pr_r_pq r) newcum in
-    let st1 := fold_left (fun st (e : Z * Z) => pr_streams_upd (fst e) (fun x => rq_fwd_ordered x (snd e)) st) entries (pr_r_streams r) in
-    let st2 := map (fun kq : Z * rq => (fst kq, rq_fwd_unordered (snd kq) newcum)) st1 in
+    let st1 := fold_left (fun st (e : Z * Z) => pr_skip_stream (pr_r_maxent r) (fst e) (fun x => rq_fwd_ordered x (snd e)) st)
+                         entries (pr_r_streams r, pr_r_accq r) in
+    let st2 := (map (fun kq : Z * rq => (fst kq, rq_fwd_unordered (snd kq) newcum)) (fst st1), snd st1) in
     (pr_after_fwd r q st2, PrrApplied).
 
 (* handleIForwardTSN *)
@@ -453,6 +481,6 @@ Definition pr_recv_ifwd (r : pr_rcv) (newcum : Z) (entries : list (Z * bool * Z)
     let q := advance (pr_r_pq r) newcum in
     let st1 := fold_left (fun st (e : Z * bool * Z) =>
                  let '(sid, u, mid) := e in
-                 pr_streams_upd sid (fun x => if u then rq_fwd_unordered_mid x mid else rq_fwd_ordered_mid x mid) st)
-               entries (pr_r_streams r) in
+                 pr_skip_stream (pr_r_maxent r) sid (fun x => if u then rq_fwd_unordered_mid x mid else rq_fwd_ordered_mid x mid) st)
+               entries (pr_r_streams r, pr_r_accq r) in
     (pr_after_fwd r q st1, PrrApplied).
